@@ -11,11 +11,15 @@ open RtcModel.C07 RtcModel.Drv
 
 def nats (l : List Nat) : String := ",".intercalate (l.map toString)
 
+/-- outcome text; after the marker `§` the model's allocation counter (stripped / compared by `handle`) -/
 def showRes (r : Res α) (f : α → String) : String :=
   match r with
-  | .ok a _ _ => "ok " ++ f a
-  | .err e _ => "err " ++ e
+  | .ok a _ n => s!"ok {f a}§{n}"
+  | .err e n => s!"err {e}§{n}"
   | .panic s => if s = "hang" then "hang" else "panic"
+
+/-- slack of the allocation tie (error objects, minimum `Vec` capacities); the harness uses the same constant -/
+def allocSlack : Nat := 512
 
 def runB (m : Cur α) (bs : List UInt8) : Res α := m (Buf.ofList bs) 0
 def runS (f : Array UInt8 → Cur α) (bs : List UInt8) : Res α := f bs.toArray (Buf.ofList []) 0
@@ -127,7 +131,7 @@ def handleSpecial (stream : String) (args : List String) : String :=
   | "sdpmid", [m] =>
     -- the live entry returns (`ret`) whatever the mid text is; a numeric 16-bit mid goes through `midUpdate`
     match Sdp.parseDec 65535 m.toUTF8.toList with
-    | some v => showRes (Sdp.midUpdate 0 v (Buf.ofList []) 0) (fun _ => "") |>.replace "ok " "ret"
+    | some v => match Sdp.midUpdate 0 v (Buf.ofList []) 0 with | .panic _ => "panic" | _ => "ret"
     | none => "ret"
   | "sdpmid", [] => "ret"
   | "sdpparse", _ => "noncompared"
@@ -147,12 +151,29 @@ def handleSpecial (stream : String) (args : List String) : String :=
     | none => "bad-hex"
   | _, _ => "bad-stream"
 
-def handle (stream : String) (args : List String) : String :=
+def handleCore (stream : String) (args : List String) : String :=
   match bufStream stream, args with
   | some f, [hx] =>
     match unhex hx with
     | some bs => f bs
     | none => "bad-hex"
   | _, _ => handleSpecial stream args
+
+/-- A trailing argument `A=<bytes>` is the allocator traffic the harness MEASURED for the real call; the model's own
+allocation counter `k` must cover it: measured ≤ 2·k + slack (factor 2 = `Vec` growth by doubling), else the output
+carries `a-<k>` and the line disagrees with the implementation's `a+`. This ties the `alloc` accounting of the models
+(the quantity the `allocBound_*` theorems bound) to measured bytes on every compared case. -/
+def handle (stream : String) (args : List String) : String :=
+  let (meas, args') : Option Nat × List String :=
+    match args.reverse with
+    | last :: rest => if last.startsWith "A=" then ((last.drop 2).toString.toNat?, rest.reverse) else (none, args)
+    | [] => (none, args)
+  let raw := handleCore stream args'
+  match raw.splitOn "§" with
+  | [t, k] =>
+    match meas, k.toNat? with
+    | some m, some k => if m ≤ 2 * k + allocSlack then t ++ " a+" else t ++ s!" a-{k}"
+    | _, _ => t
+  | _ => raw
 
 end RtcModel.Drv.C07
